@@ -787,15 +787,37 @@ pub fn numeric_family() -> Vec<V> {
 /// form at the end. Swept separately from the regular alphabets (DESIGN 3.1, KF-2).
 pub fn han_collide_values() -> Vec<V> {
     let mut out = vec![];
-    for n in ["预算", "预1算", "预12算甲", "甲过去", "甲现在", "甲将来", "甲发生在1", "甲真值", "甲真1值"] {
+    let mut names: Vec<String> = ["预算", "预1算", "预12算甲", "甲过去", "甲现在", "甲将来", "甲发生在1", "甲真值", "甲真1值"].iter().map(|s| s.to_string()).collect();
+    // keyword affixes: every keyword of the Han vocabulary that is made of name characters, as a whole
+    // name, as the beginning, the end and the middle of a name - as far as the result is well-formed
+    // (does not begin with an atom prefix, holds no copula)
+    let f = crate::fmts::han();
+    let prefixes: Vec<&str> = f.atom_prefixes().into_iter().filter(|p| !p.is_empty()).collect();
+    let copulas = f.copulas();
+    for k in crate::strings::keywords(&f) {
+        if !k.chars().all(|c| c.is_alphanumeric()) {
+            continue;
+        }
+        for n in [k.clone(), format!("{k}甲"), format!("甲{k}"), format!("甲{k}乙"), format!("{k}1"), format!("{k}{k}")] {
+            let ok = !prefixes.iter().any(|p| n.starts_with(p)) && !copulas.iter().any(|c| n.contains(c));
+            if ok && !names.contains(&n) {
+                names.push(n);
+            }
+        }
+    }
+    for n in &names {
         let t = R::word(n);
         out.push(V::term(t.clone()));
         out.push(V { term: t.clone(), punct: Some(P::Judgement), stamp: St::Eternal, truth: vec![], budget: None });
         out.push(V { term: t.clone(), punct: Some(P::Goal), stamp: St::Present, truth: vec![1.0, 0.9], budget: None });
+        out.push(V { term: t.clone(), punct: Some(P::Question), stamp: St::Fixed(3), truth: vec![], budget: None });
         out.push(V { term: t.clone(), punct: Some(P::Judgement), stamp: St::Eternal, truth: vec![], budget: Some(vec![0.5]) });
         // not in leading / trailing position: inside a statement
         out.push(V::term(R::pair(Tag::Inh, t.clone(), R::word("a"))));
-        out.push(V::term(R::node(Tag::Product, vec![R::word("a"), t])));
+        out.push(V::term(R::pair(Tag::Inh, R::word("a"), t.clone())));
+        out.push(V::term(R::node(Tag::Product, vec![R::word("a"), t.clone()])));
+        out.push(V::term(R::node(Tag::Product, vec![t.clone(), R::word("a")])));
+        out.push(V::term(R::node(Tag::SetExt, vec![t])));
     }
     out
 }
